@@ -201,6 +201,21 @@ Theorem C07_accepts : forall (validate : bool) (r : request),
 Proof. exact make_cookie_accepts. Qed.
 Print Assumptions C07_accepts.
 
+(* KNOWN FINDING (token-name-refused:dollar-or-attribute-name): the hypothesis name_accepted of C07_accepts is rfc_token
+   minus a leading '$' and the attribute names, and cannot be weakened to rfc_token: "$n", "Path", "MAX-AGE" are tokens
+   and are refused; they are the only ones. *)
+Theorem C07_token_names_refused_refuted :
+  (rfc_token (H "246e"%string) = true /\ make_cookie true (plain_request (H "246e"%string)) = Raise AssertionError)
+  /\ (rfc_token (H "50617468"%string) = true /\ make_cookie true (plain_request (H "50617468"%string)) = Raise AssertionError)
+  /\ (rfc_token (H "4d41582d414745"%string) = true /\ make_cookie true (plain_request (H "4d41582d414745"%string)) = Raise AssertionError).
+Proof. exact token_names_refused_refuted. Qed.
+Print Assumptions C07_token_names_refused_refuted.
+
+Theorem C07_refused_tokens_only : forall k, rfc_token k = true -> name_accepted k = false ->
+  (exists t, k = 36 :: t) \/ mem_str (blower k) c_keys = true.
+Proof. exact refused_tokens_only. Qed.
+Print Assumptions C07_refused_tokens_only.
+
 Example C07_accepts_example : name_accepted (r_name example_request) = true.
 Proof. vm_compute. reflexivity. Qed.
 
